@@ -117,6 +117,8 @@ class Run(object):
                     continue
                 seen_refs.add((c.key, ref))
                 for variant in c.variants:
+                    if variant.get('__twin__', twin) != twin:
+                        continue
                     out.append((c.key, twin, variant))
         return out
 
